@@ -99,6 +99,22 @@ CHECKS = {
         ref="5/C19", tech="TLA+ model checking (TLC) + transition-coverage replay and trace validation against the real map/path code",
         note="Trusted base: TLC + CommunityModules. Memory errors are observed by the sanitizer-instrumented harness on the enumerated "
              "and random cases, not expressed in the model. Leniency of strtol inside brackets is a note only (DESIGN 7.1)."),
+    "C20": dict(
+        text="spec/Relay.tla transcribes tools/xcmrelay (xrelay.c / rserver.c: one held message per direction, awaited conditions, both "
+             "xfwd_active callbacks of an active descriptor in either order, termination) between two applications over bounded legs; TLC "
+             "checks Transparent, CloseAfterData, RelayAlive, NoStall, NoOrphanCallback as invariants and Progress / CloseSeen / "
+             "Progress2 (independence of a second relayed connection) under fairness for the intended design (Dev = {}), and finds the "
+             "CloseAfterData counterexamples of the named deviations the code has (recorded findings). Binding: TLC prints one "
+             "application-level behaviour per application transition of the faithful model; harness/relay_exec runs them against the real "
+             "xcmrelay (built from the tree, ASan; also a small-socket-buffer variant) as a separate process between non-blocking "
+             "endpoints for all 29 transport pairs (5x5 messaging, 2x2 byte-stream), with content-addressed units, and "
+             "spec/RelayTrace.tla decides from the two endpoint histories with the model's own operators (loss, duplication, invention, "
+             "corruption, truncation, close before data, stall, relay exit).",
+        ref="5/C20", tech="TLA+ model checking (TLC, safety + fairness) + model-generated behaviours replayed against the real relay, histories validated by a trace specification",
+        note="Trusted base: TLC + CommunityModules. The relay's internals are not logged (application-level histories only). CloseAfterData "
+             "is evaluated for orderly closes only. The stall verdict necessarily uses a no-progress limit (5 s, 10 s on the mandatory "
+             "sequential re-run); every violation class must reproduce in a sequential re-run. Two genuine defects of the relay are "
+             "recorded in known_findings.json (relay_close_loss, relay_noflush)."),
 }
 
 NOT_APPLICABLE = {}
